@@ -228,7 +228,7 @@ func project(rep *idp.Reply) Obs {
 // Run executes the logout harness for C13 (and the logout oracle of C02).
 func Run(prop, dir, tier string, seed int64) error {
 	run := coqgen.NewRun(dir, prop, tier, seed)
-	run.Imports = "From Saml Require Import Base.Bytes Gen.Pure Idp.Sso Idp.Logout Corr.LogoutCorr."
+	run.Imports = "From Saml Require Import Base.Bytes Gen.Pure Idp.Sso Idp.Logout Xml.Unmarshal Corr.LogoutCorr."
 	run.CaseType = "lo_case"
 	run.BadFn = "lo_bad"
 	run.PerShard = 150
@@ -264,12 +264,16 @@ func Run(prop, dir, tier string, seed int64) error {
 			}
 		}
 		coqForm, coqDec, coqSP := "None", "None", "None"
+		docTree := "None"
 		times := map[string]*int64{}
 		var decIssuer *string
 		decoded := false
 		decID := ""
 		if formOK {
 			coqForm = fmt.Sprintf("(Some {| lf_req := %s; lf_enc := %s; lf_relay := %s |})", coqgen.Opaque(form[0]), coqgen.Bytes(form[1]), coqgen.Bytes(form[2]))
+			if data, derr := samlxml.InflateAndDecode(form[1], true, form[0]); derr == nil {
+				docTree = idp.DocTreeTerm(data)
+			}
 			if q, err := samlxml.DecodeLogoutRequest(form[1], form[0]); err == nil {
 				decoded = true
 				decID = q.Id
@@ -316,8 +320,8 @@ func Run(prop, dir, tier string, seed int64) error {
 		run.Res.Evaluations++
 		obs := fmt.Sprintf("{| lo_kind := %s; lo_status := %s; lo_irt := %s; lo_issuer := %s; lo_dest := %s; lo_target := %s; lo_relay := %s |}",
 			coqgen.Z(int64(o.Kind)), coqgen.Bytes(o.Status), coqgen.Bytes(o.IRT), coqgen.Bytes(o.Issuer), coqgen.Bytes(o.Dest), coqgen.Bytes(o.Target), coqgen.Bytes(o.Relay))
-		coq := fmt.Sprintf("{| lc_id := %s; lc_form := %s; lc_dec := %s; lc_sp := %s; lc_times := %s; lc_now := %s; lc_eid := %s; lc_obs := %s |}",
-			coqgen.Z(int64(id)), coqForm, coqDec, coqSP, coqgen.List(tl), coqgen.Z(now.UnixMicro()), coqgen.Bytes(issuer+"/metadata"), obs)
+		coq := fmt.Sprintf("{| lc_id := %s; lc_form := %s; lc_dec := %s; lc_sp := %s; lc_times := %s; lc_now := %s; lc_eid := %s; lc_obs := %s; lc_doc := %s |}",
+			coqgen.Z(int64(id)), coqForm, coqDec, coqSP, coqgen.List(tl), coqgen.Z(now.UnixMicro()), coqgen.Bytes(issuer+"/metadata"), obs, docTree)
 		desc := map[string]interface{}{"scenario": s, "request": spec, "document": string(s.Req.XML()), "observed": o, "reply_kind": rep.Kind, "code": rep.Code, "panic": rep.Panic}
 		run.AddCase(id, coq, desc)
 		run.Count("mut=" + s.Mut)
